@@ -747,6 +747,42 @@ class C07(Property):
             return 'lintanh-typeerror'
         return None
 
+    def shrink(self, case, still_fails):
+        """drop reactions (with their constant) and then unused species while the oracle still fails"""
+        if case.get('op') != 'f' or case.get('kind') == 'precip':
+            return case
+
+        def fails(d):
+            try:
+                return bool(still_fails(d))
+            except Exception:
+                return False
+        c = json.loads(json.dumps(case))
+        changed = True
+        while changed:
+            changed = False
+            ns, nr = len(c['sys']['species']), len(c['sys']['rxns'])
+            for i in range(nr):
+                d = json.loads(json.dumps(c))
+                del d['sys']['rxns'][i]
+                del d['params'][ns + i]
+                if fails(d):
+                    c, changed = d, True
+                    break
+            if changed:
+                continue
+            used = {k for r in c['sys']['rxns'] for part in r.values() for k, _ in part}
+            for j, sp in enumerate(c['sys']['species']):
+                if sp['name'] not in used and ns > 1:
+                    d = json.loads(json.dumps(c))
+                    del d['sys']['species'][j]
+                    del d['y'][j]
+                    del d['params'][j]
+                    if fails(d):
+                        c, changed = d, True
+                        break
+        return c
+
     def classify(self, c):
         if c['op'] == 'f':
             return 'f:%s:%s:%s' % (c['form'], c['kind'], c['sys_kind'])
